@@ -634,11 +634,11 @@ func (ndb *nodeDB) DeleteVersionsFrom(fromVersion int64) error {
 		}
 		// Update the legacy latest version forcibly
 		ndb.legacyLatestVersion = 0
-		fromVersion = legacyLatestVersion + 1
 	}
 
-	// Delete the nodes for new format
-	if err = ndb.traverseRange(nodeKeyPrefixFormat.KeyInt64(fromVersion), nodeKeyPrefixFormat.KeyInt64(latest+1), func(k, _ []byte) error {
+	// Delete the nodes for new format; the range starts at the requested version also when that
+	// lies in the legacy range: a legacy root re-saved by a later commit lives under (its version, 0)
+	if err = ndb.traverseRange(nodeKeyPrefixFormat.KeyInt64(dumpFromVersion), nodeKeyPrefixFormat.KeyInt64(latest+1), func(k, _ []byte) error {
 		return ndb.batch.Delete(k)
 	}); err != nil {
 		return err
